@@ -507,6 +507,19 @@ func (x *gcRunner) body() (gateReached bool) {
 			x.fire("cancel:" + s.Name)
 		}
 	}
+	// a blocking Publish must return once every subscription that does not ack has been cancelled
+	obstacle := false
+	for _, sb := range sc.Subs {
+		if (sb.Behav == "neverack" || sb.StopReading) && sb.CancelAt == 0 && !(sb.CancelAfter > 0 && !sb.StopReading) {
+			obstacle = true
+		}
+	}
+	if mayBlock && !obstacle && sc.CloseAt != 1 {
+		if !WaitOrHang(pubsDone) {
+			x.emit("hung", "what", "blocking Publish did not return although the unacking subscriptions were cancelled", "stacks", gcStacks(fmt.Sprintf("gc-%d", x.r.ID)))
+			return
+		}
+	}
 	x.waitIdle(40*time.Millisecond, 3*time.Second)
 	allReturned := false
 	select {
